@@ -87,6 +87,7 @@ def stepCall (ext : WExt) (srcs : List (Archive × Dev)) (tok : String) (s : WSt
   | ["w", h] => do
     let b ← parseHex h
     run (writeData b) fun _ => "ok"
+  | ["fl"] => run flushWriter fun _ => "ok"
   | ["el"] => run (endLocalStartCentral ext) fun v => s!"ok={v}"
   | ["ex"] => run (endExtraData ext) fun v => s!"ok={v}"
   | "dir" :: name :: opts => do
